@@ -175,7 +175,7 @@ def run_shard(desc) -> Acc:
                     rec.clear()
                     # (callbacks carry the sequence number of the last *completed* command)
                     cs_ = (ncp.requests[-1][3] - 1) % 256 if ncp.requests else seq
-                    app._ezsp.frame_received(enc_incoming(V, cs_, f_))
+                    appharness.ezsp_of(app).frame_received(enc_incoming(V, cs_, f_))
                     await asyncio.sleep(0)
                     pk_ = [r for r in rec if r[0] == "packet"]
                     n_during += 1
@@ -206,7 +206,7 @@ def run_shard(desc) -> Acc:
             def inject(frame):
                 rec.clear()
                 try:
-                    app._ezsp.frame_received(frame) if hasattr(app, "_ezsp") else ncp.deliver(frame)
+                    ncp.deliver(frame)
                 except BaseException as ex:  # noqa: BLE001
                     return ex
                 return None
@@ -316,7 +316,7 @@ def run_shard(desc) -> Acc:
                 ex = None
                 for fr_ in frames:
                     try:
-                        app._ezsp.frame_received(fr_)
+                        appharness.ezsp_of(app).frame_received(fr_)
                     except BaseException as ex_:  # noqa: BLE001
                         ex = ex_
                 if ex is not None:
